@@ -394,6 +394,20 @@ let run_path kind toks =
   | "ptransform" ->
     let t = nxf c in let p = npath c in
     path_result id (Base.Ok (PathOps.path_transform t p))
+  | "pbuild" ->
+    (* a sequence of PathBuilder calls (no arc: lyon's arc is a parameter of the model and is never consulted here) *)
+    let n = nint c in
+    let calls = ntimes n (fun () -> match next c with
+      | "m" -> let x = nf c in let y = nf c in PathShape.BMoveTo (x, y)
+      | "l" -> let x = nf c in let y = nf c in PathShape.BLineTo (x, y)
+      | "q" -> let a = nf c in let b = nf c in let x = nf c in let y = nf c in PathShape.BQuadTo (a, b, x, y)
+      | "c" -> let a = nf c in let b = nf c in let d = nf c in let e = nf c in let x = nf c in let y = nf c in
+        PathShape.BCubicTo (a, b, d, e, x, y, [])
+      | "z" -> PathShape.BClose
+      | "r" -> let x = nf c in let y = nf c in let w = nf c in let h = nf c in PathShape.BRect (x, y, w, h)
+      | t -> failwith ("pbuild call " ^ t)) in
+    let no_arc _ _ _ _ _ = failwith "arc oracle consulted" in
+    path_result id (Base.Ok (PathShape.b_run no_arc PathShape.b_new calls))
   | _ -> failwith ("path kind " ^ kind)
 
 
@@ -429,7 +443,7 @@ let () =
       | "scene" :: rest -> run_scene rest
       | "fmt" :: rest -> run_fmt rest
       | "specscene" :: rest -> run_specscene rest
-      | ("pcontains" | "pflatten" | "pdash" | "pstroke" | "prect" | "ptransform" | "pcontz" as k) :: rest -> run_path k rest
+      | ("pcontains" | "pflatten" | "pdash" | "pstroke" | "prect" | "ptransform" | "pcontz" | "pbuild" as k) :: rest -> run_path k rest
       | t :: _ -> failwith ("unknown case kind " ^ t)
     done
   with End_of_file -> ()
